@@ -111,6 +111,7 @@ func (r *Runtime) arrayBufferProto_getByteLength(call FunctionCall) Value {
 func (r *Runtime) arrayBufferProto_slice(call FunctionCall) Value {
 	o := r.toObject(call.This)
 	if b, ok := o.self.(*arrayBufferObject); ok {
+		b.ensureNotDetached(true)
 		l := int64(len(b.data))
 		start := relToIdx(call.Argument(0).ToInteger(), l)
 		var stop int64
